@@ -90,7 +90,7 @@ def rt_processes(seed, hash_seeds, ambients):
     runs = {}
     for hs in hash_seeds:
         for amb in ambients:
-            env = dict(os.environ, PYTHONHASHSEED=str(hs), PYTHONPATH='/repo', PYTHONWARNINGS='ignore', OMP_NUM_THREADS='1')
+            env = dict(os.environ, PYTHONHASHSEED=str(hs), PYTHONPATH=os.environ.get('VERIF_REPO', '/repo'), PYTHONWARNINGS='ignore', OMP_NUM_THREADS='1')
             p = subprocess.run(['/venv/bin/python', probe, str(amb)], capture_output=True, text=True, env=env, timeout=900)
             if p.returncode != 0:
                 out.append(dict(name='rt:probe-process-ran', ok=False, detail=p.stderr[-800:], witness=dict(hashseed=hs, ambient=amb)))
@@ -108,6 +108,12 @@ def rt_processes(seed, hash_seeds, ambients):
         unt = all(r.get(comp + '::ambient-untouched') is True for r in runs.values())
         out.append(dict(name='rt:%s:global-random/numpy/torch-generators-are-not-disturbed' % comp, ok=unt, witness=dict(component=comp)))
     return out
+
+
+def rt_semimdp_fixed_seeds(seed, n):
+    """the fixed-seed clauses (0 included) of the semi-MDP consistency run; the unseeded clause belongs to C15, not to this property"""
+    from props import C15
+    return [r for r in C15.rt_semimdp_consistency(seed, n) if 'fixed-seed' in r['name']]
 
 
 def tasks(tier, seed):
@@ -138,6 +144,8 @@ def tasks(tier, seed):
         T.append(Task('frame/POMDPPolicy.run_on/%s' % kind, frame_only(C14.h_pomdp_run_on), (pf, kind, 2, False, False, seed), tier='B', max_paths=4000))
     T.append(Task('frame/Option.run_on', frame_only(C15.h_option_run), (C15.corridor(), 'mixed', (4,), 0, 4), tier='B', max_paths=5000))
     T.append(Task('frame/SemiMDP.option-simulation', frame_only(C15.h_semimdp), (C15.corridor(), 'mixed', (4,), 1, 2, False), tier='B', max_paths=6000))
+    T.append(Task('frame/SemiMDP.option-simulation/seed0', frame_only(C15.h_semimdp), (C15.corridor(), 'mixed', (4,), 1, 2, False, 0), tier='B', max_paths=6000, note='0 is a fixed seed'))
+    T.append(Task('rt/semimdp-fixed-seeds', rt_semimdp_fixed_seeds, (seed, 6 if tier == 'quick' else 40), tier='R', kind='rt'))
     for n in (1, 3):
         for seeded in (True, False):
             T.append(Task('implicit/n%d/%s' % (n, 'seeded' if seeded else 'unseeded'), h_implicit, (n, seeded), tier='B'))
